@@ -2,16 +2,21 @@
    proto.Equal said about them (as they are, and with change_time cleared in every Change), and for
    each comparer configuration the verdicts of the real comparer on (x,y), (y,x), (x,x), (y,y).
    A stream case carries a resource.Value configured with an equivalence, the seed, the written
-   values and what a backpressured Pull delivered.
+   values and what a backpressured Pull delivered; a collection case a whole resource.Collection
+   (several ids, adds / updates / deletes, WithInclude, WithUpdatesOnly) and every change delivered.
+   [KG g c] carries the guard as the generator computed it.
 
-   [agrees]: observation = model (Cmp.v / Logic.v / Tolerance.v with Go's arithmetic; Resource/Pull.v).
+   [agrees]: observation = model: Cmp.v / Logic.v (equator, And / Or), Tolerance.v (AsDuration, float32
+   ratio), FloatB64.v (FloatValueApprox on Flocq binary64), GoTime.v (time.Unix / Before / Sub / Add /
+   Equal as Go computes them), Resource/Pull.v (Value.Pull), CollEquiv.v (Collection.Pull with the
+   held map); and the generator's guard = C16_guard.
    [C16_ok]: the clauses of the property re-evaluated on the OBSERVED verdicts: agreement with the
    real proto.Equal, with the reference semantics of Spec.v (set-of-fields equality, tolerances in
    exact arithmetic), symmetry, reflexivity, And = conjunction / Or = disjunction of the observed
-   component verdicts, delivered iff not equivalent to the last delivered value.  It does not go
-   through the equator model. *)
+   component verdicts, delivered iff not equivalent to the value the subscriber holds.  It does not go
+   through the equator model.  JudgeProofs.judge_sound: agrees -> guard -> in_scope -> C16_ok. *)
 From Coq Require Import QArith Qabs Qminmax.
-From SC Require Import Base.Prelude Cmp.Cmp Cmp.Logic Cmp.Tolerance Cmp.GoTime Cmp.Spec Resource.Impl Resource.Pull Cmp.CollEquiv.
+From SC Require Import Base.Prelude Cmp.Cmp Cmp.Logic Cmp.Tolerance Cmp.FloatB64 Cmp.GoTime Cmp.Spec Resource.Impl Resource.Pull Cmp.CollEquiv.
 Open Scope Z_scope.
 
 Inductive vcfg := VFloat (fraction margin : Q) | VTime (d : Z) | VDur (d : Z) | VDurP (p : Q).
@@ -43,13 +48,18 @@ Inductive c16case :=
    [emitted]: (id, old value, new value) of every change delivered, seeds included *)
 | KColl (e : ecfg) (uo : bool) (thr : option Q) (init : list (string * cval)) (ops : list collop)
         (emitted : list (string * option cval * option cval))
+(* the same two kinds of history pulled WithReadPaths([paths]) (top-level field names): the equivalence
+   sees, and the subscriber holds, FILTERED values *)
+| KStreamM (paths : list string) (e : ecfg) (seed : option cval) (writes : list cval) (emitted : list cval)
+| KCollM (paths : list string) (e : ecfg) (uo : bool) (thr : option Q) (init : list (string * cval)) (ops : list collop)
+         (emitted : list (string * option cval * option cval))
 (* [g]: the guard as the generator computed it (so that the guard-pass rate it reports is the judge's) *)
 | KG (g : bool) (c : c16case).
 
 (* ---------- model ---------- *)
 Definition model_v (c : vcfg) : vcmp :=
   match c with
-  | VFloat fr mg => float_approx fr mg
+  | VFloat fr mg => float_approx_b64 fr mg
   | VTime d => time_within_fixed d
   | VDur d => duration_within d
   | VDurP p => duration_within_p p
@@ -126,6 +136,27 @@ Definition coll_full_model (e : ecfg) (uo : bool) (thr : option Q) (init : list 
   : list (string * option cval * option cval) :=
   map triple_of (pull_collection_held id_filter (Some (model_e e)) (coll_state init) (coll_ro uo thr) (events_of init ops)).
 
+(* masks.ResponseFilter.FilterClone for a mask of top-level field names, on messages without unknown
+   fields: the listed populated fields are kept; an empty mask resets the message *)
+Definition path_filter (paths : list string) (m : cval) : cval :=
+  match m with
+  | CM ty v fs u =>
+      match paths with
+      | [] => CM ty v [] []
+      | _ => CM ty v (filter (fun kv : string * cval => existsb (String.eqb (fst kv)) paths) fs) u
+      end
+  | x => x
+  end.
+Definition pull_model_m (paths : list string) (e : ecfg) (seed : option cval) (writes : list cval) : list cval :=
+  map (@vc_value cval)
+      (pull_value path_filter (Some (model_e e))
+                  (mkV seed 0 0) (mkR (Some paths) false None)
+                  (map (fun w => mkVE w 0) writes)).
+Definition coll_full_model_m (paths : list string) (e : ecfg) (uo : bool) (thr : option Q) (init : list (string * cval))
+           (ops : list collop) : list (string * option cval * option cval) :=
+  map triple_of (pull_collection_held path_filter (Some (model_e e)) (coll_state init)
+                   (mkR (Some paths) uo (option_map include_of thr)) (events_of init ops)).
+
 Definition cvals_eqb (a b : list cval) : bool :=
   list_eqb (fun x y => spec_equal no_ign no_leaf x y && Bool.eqb (valid_of x) (valid_of y)) a b.
 
@@ -158,6 +189,8 @@ Definition agrees_core (c : c16case) : bool :=
   | KStream e seed writes emitted => cvals_eqb emitted (pull_model e seed writes)
   | KCollStream e seed writes emitted => cvals_eqb emitted (coll_model e seed writes)
   | KColl e uo thr init ops emitted => list_eqb triple_eqb emitted (coll_full_model e uo thr init ops)
+  | KStreamM paths e seed writes emitted => cvals_eqb emitted (pull_model_m paths e seed writes)
+  | KCollM paths e uo thr init ops emitted => list_eqb triple_eqb emitted (coll_full_model_m paths e uo thr init ops)
   | KG _ _ => false
   end.
 
@@ -226,6 +259,16 @@ Fixpoint ideal_coll (e : ecfg) (thr : option Q) (view : list (string * cval)) (o
       if ideal_e e (alookup id view) sn then ideal_coll e thr view r
       else (id, sn) :: ideal_coll e thr (match sn with Some v => aset id v view | None => adel id view end) r
   end.
+(* with a read mask: inclusion is decided on the stored value, the subscriber sees the filtered one *)
+Fixpoint ideal_coll_m (f : cval -> cval) (e : ecfg) (thr : option Q) (view : list (string * cval)) (ops : list collop)
+  : list (string * option cval) :=
+  match ops with
+  | [] => []
+  | (id, nv) :: r =>
+      let sn := option_map f (seen_val thr id nv) in
+      if ideal_e e (alookup id view) sn then ideal_coll_m f e thr view r
+      else (id, sn) :: ideal_coll_m f e thr (match sn with Some v => aset id v view | None => adel id view end) r
+  end.
 Definition seen_init (thr : option Q) (init : list (string * cval)) : list (string * cval) :=
   filter (fun p : string * cval => match seen_val thr (fst p) (Some (snd p)) with Some _ => true | None => false end) init.
 Definition pair_eqb (a b : string * option cval) : bool := String.eqb (fst a) (fst b) && ocval_eqb (snd a) (snd b).
@@ -240,16 +283,21 @@ Definition ok_core (c : c16case) : bool :=
       list_eqb pair_eqb (map (fun t : string * option cval * option cval => (fst (fst t), snd t)) emitted)
                ((if uo then [] else map (fun p : string * cval => (fst p, Some (snd p))) (seen_init thr init))
                 ++ ideal_coll e thr (seen_init thr init) ops)
+  | KStreamM paths e seed writes emitted =>
+      let f := path_filter paths in
+      cvals_eqb emitted (match seed with Some s => [f s] | None => [] end ++ ideal_stream e (option_map f seed) (map f writes))
+  | KCollM paths e uo thr init ops emitted =>
+      let f := path_filter paths in
+      let view := map (fun p : string * cval => (fst p, f (snd p))) (seen_init thr init) in
+      list_eqb pair_eqb (map (fun t : string * option cval * option cval => (fst (fst t), snd t)) emitted)
+               ((if uo then [] else map (fun p : string * cval => (fst p, Some (snd p))) view)
+                ++ ideal_coll_m f e thr view ops)
   | KG _ _ => false
   end.
 
 (* ---------- guard: the hypotheses of the theorems and of the exact-arithmetic modelling ---------- *)
-Definition pow2 (p : positive) : bool := (Z.pos p =? 2 ^ Z.log2 (Z.pos p)).
-(* a small dyadic rational: every operation of FloatValueApprox on such values is exact in float64
-   (and the values are exact in float32) *)
-Definition small_dyadic (q : Q) : bool :=
-  pow2 (Qden q) && (Z.pos (Qden q) <=? 1024) && (Z.abs (Qnum q) <=? 1048576).
-Definition fl_small (a : fl) : bool := match a with FFin q => small_dyadic q | _ => true end.
+(* [small_dyadic], [fl_small]: Cmp/FloatB64.v (a small dyadic rational: every operation of FloatValueApprox on
+   such values is exact in float64, FloatB64Proofs.b64_approx_exact) *)
 Definition scalar_small (s : cscalar) : bool := match s with CF32 a | CF64 a => fl_small a | _ => true end.
 
 Definition sec_bound : Z := 1152921504606846976.   (* 2^60 *)
@@ -285,6 +333,11 @@ Definition guard_core (c : c16case) : bool :=
   | KStream e seed writes _ => opt_guard seed && forallb (fun w => opt_guard (Some w)) writes && ecfg_guard e
   | KCollStream e seed writes _ => opt_guard (Some seed) && forallb (fun w => opt_guard (Some w)) writes && ecfg_guard e
   | KColl e _ thr init ops _ =>
+      forallb (fun p : string * cval => opt_guard (Some (snd p))) init
+      && forallb (fun o : collop => opt_guard (snd o)) ops && ecfg_guard e
+      && match thr with Some t => small_dyadic t | None => true end
+  | KStreamM _ e seed writes _ => opt_guard seed && forallb (fun w => opt_guard (Some w)) writes && ecfg_guard e
+  | KCollM _ e _ thr init ops _ =>
       forallb (fun p : string * cval => opt_guard (Some (snd p))) init
       && forallb (fun o : collop => opt_guard (snd o)) ops && ecfg_guard e
       && match thr with Some t => small_dyadic t | None => true end
